@@ -32,6 +32,14 @@ CHECKS = {
             "Op sequences Optimize(-log) -> Replay on the simulated disk: byte-for-byte fidelity of the replay; crash points (kill / power loss) placed on I/O events between the first write of the log and the close of the output file, then Restart + Replay from the surviving image (error, crash-free output, or code equivalent to the input) and Restart + Optimize (must reproduce the crash-free output and log); logs tampered by id substitution/deletion/duplication/permutation/foreign insertion, swapped or renamed keys, truncation and single-bit flips must be rejected or yield R1-equivalent code.",
             "Crash points are sampled inside the write window in the quick tier (enumerated in the thorough tier for windows <= 400 events); tamper edits sampled (<= 3 edits); durable-image model in gsim/core/simfs.py; R1 decides equivalence on sampled states.",
             TECH + ": crash-point placement with durable-image model, stored-byte corruption of logs, restart and replay ops"),
+    "C14": ("fault_enumeration", "§5 C14",
+            "Fault enumeration over solver-peer outcomes per sub-block (all fail / exactly call k succeeds for each k up to 5 / seeded subset / all succeed via greedy) on split-bait blocks for the three policies; recorders at the rebuild and specification seams capture what the real code saw; checks: join of sub-blocks == optimizable instructions, every specification key names a reported sub-block with matching original_instrs, source stack not larger than what precedes it, rebuild == independent positional rebuild, all-fail => emitted block == input.",
+            "Single-success patterns enumerated up to 5 sub-blocks per block, base blocks sampled; the clause on source-stack sizes is an upper bound only (the front-end drops untouched cells).",
+            TECH + ": enumerated per-sub-block peer success/failure patterns, recorders at the rebuild seam, independent positional rebuild"),
+    "C17": ("exploration", "§5 C17",
+            "Several ops with different PUSH0 settings in one process (the flag is process-wide) on zero-rich blocks; checks per op: no PUSH0 emitted under -push0 unless present in the input, printed initial/optimized totals equal R4 sums priced under the op's own flag, files and totals equal to the same op in a pristine process, and for -c the document/log/rows concern the selected contract only.",
+            "Flag histories of length <= 3 with a fixed split mode per process; R4 pricing; PUSH \"0\" and PUSH0 are the same item in JSON.",
+            TECH + ": flag-value histories within one process versus a pristine process, independent pricing"),
 }
 NA = {
     "C03": "pure function of a term on 256-bit words: no schedule, clock, peer, file, crash or history between term and rewritten term (rule bait still runs through C01/C02 as a side effect)",
